@@ -83,11 +83,15 @@ func checkC12(c *chk.Ctx) {
 
 // judgeSegments validates, reports rejections as violations and fills the evidence.
 func judgeSegments(c *chk.Ctx, module, cfg string, segs []*trace.Segment, evals int) {
+	judgeSegmentsN(c, module, cfg, segs, evals, 25)
+}
+
+func judgeSegmentsN(c *chk.Ctx, module, cfg string, segs []*trace.Segment, evals int, maxReject int) {
 	consts := map[string]string{"Dev": trace.DevSet(c.Dev())}
 	for k, v := range extraConsts {
 		consts[k] = v
 	}
-	v, err := trace.Validate(module, cfg, consts, segs, 25)
+	v, err := trace.Validate(module, cfg, consts, segs, maxReject)
 	if err != nil {
 		c.Broken("%v", err)
 	}
